@@ -383,6 +383,10 @@ func analyse(src string, mode parser.Mode, mut []minijs.Token) (v verdict) {
 		v.fail = fmt.Sprintf("(d) %s; src=%s", is, show(src))
 		return v
 	}
+	for _, is := range m04.CheckLeafText(tree, src, 1) {
+		v.fail = fmt.Sprintf("(d) %s; src=%s", is, show(src))
+		return v
+	}
 	// (e)
 	for _, is := range m04.CheckWalk(r.prog, tree) {
 		if is.Kind == "walk-nil" && (is.Type == "*ast.Identifier" || is.Type == "*ast.CatchStatement") && known("C04-WALK-TYPED-NIL") {
@@ -1181,6 +1185,16 @@ func genTemplate(t *rapid.T) *minijs.Node {
 			out = append(out, &minijs.Node{K: "var", Kids: []*minijs.Node{{K: "decl", Name: "v", Kids: []*minijs.Node{opt(id("w"))}}}})
 		default:
 			out = append(out, stmt())
+		}
+	}
+	if rapid.IntRange(0, 3).Draw(t, "regex-last") == 0 {
+		// a regular expression literal whose body starts with "=" (lexed through the "/=" token), as
+		// the last token of the text when the layout drops the final semicolon
+		re := &minijs.Node{K: "regex", Lit: []string{"=", "=a", "=[/]", "==", "=\\/"}[rapid.IntRange(0, 4).Draw(t, "re")], Op: []string{"", "g", "i"}[rapid.IntRange(0, 2).Draw(t, "fl")]}
+		if rapid.Bool().Draw(t, "assign") {
+			out = append(out, minijs.ExprStmt(minijs.Assign("=", id("x"), re)))
+		} else {
+			out = append(out, minijs.ExprStmt(re))
 		}
 	}
 	return &minijs.Node{K: "program", Kids: out}
